@@ -56,3 +56,40 @@ def c13_public_suffix_of_descendant_differs(v):
     if not hu or not hv:
         return False
     return ref.suffix(hu) != ref.suffix(hv)
+
+
+def _c19_url(v):
+    inp = v.get("input") or {}
+    return inp.get("url") or ""
+
+
+def c19_valueerror_of_urllib(v):
+    """a totality clause fails with ValueError on a string that urllib.parse rejects (unbalanced bracket, NFKC-unsafe netloc)"""
+    note = v.get("note") or ""
+    obs = repr(v.get("observed"))
+    if ":ValueError:" not in note and "ValueError" not in obs:
+        return False
+    u = _c19_url(v)
+    try:
+        from urllib.parse import urlsplit
+        for cand in (u, "http://" + u, "https://www.facebook.com/" + u.lstrip("/")):
+            try:
+                urlsplit(cand)
+            except ValueError:
+                return True
+    except Exception:
+        pass
+    return "[" in u or "]" in u or any(ord(ch) > 127 for ch in u)
+
+
+def c19_exotic_segment_in_record(v):
+    """the record was read from a path with an empty segment ('//'), a dot segment, a blank or percent-escaped / reserved characters:
+    the value does not survive being pasted into the canonical URL template (families F7 / F12 of bcheck/notes/c19.md)"""
+    import re
+    note = v.get("note") or ""
+    if ":empty" in note or "dot-segment" in note:
+        return True
+    u = _c19_url(v)
+    rest = re.sub(r"^[a-zA-Z]*:?//", "", u)
+    path = rest.split("/", 1)[1] if "/" in rest else ""
+    return bool(re.search(r"(^|/)\.{1,2}(/|$)|//|%|;| $|^ | /|/ |#", path)) or u != u.strip() or " " in u
